@@ -475,6 +475,16 @@ pub fn minimise<P: Prop>(p: &P, case: &P::Case, fail: &Fail, budget: usize) -> (
         }
     };
     let mut used = 0;
+    // minimisation is best effort: bounded by candidate count and by wall
+    // time (the verdict never depends on how far it got; the file that is
+    // written is re-executed in a fresh process before it is reported)
+    let started = Instant::now();
+    let time_limit = std::time::Duration::from_secs(
+        std::env::var("VERIF_SHRINK_SECS")
+            .ok()
+            .and_then(|s| s.parse().ok())
+            .unwrap_or(40),
+    );
     let mut seen: HashSet<u64> = HashSet::new();
     let key = |c: &P::Case| {
         let mut d = Dig::new();
@@ -485,7 +495,7 @@ pub fn minimise<P: Prop>(p: &P, case: &P::Case, fail: &Fail, budget: usize) -> (
     'outer: loop {
         let cands = p.shrink(&cur);
         for cand in cands {
-            if used >= budget {
+            if used >= budget || started.elapsed() > time_limit {
                 break 'outer;
             }
             if !seen.insert(key(&cand)) {
